@@ -193,3 +193,17 @@ Print Assumptions C06_flow_decomposition_never_panics.
 Theorem C06_flow_decomposition_needs_conservation : stmt_decode_needs_conservation.
 Proof. exact decode_needs_conservation. Qed.
 Print Assumptions C06_flow_decomposition_needs_conservation.
+
+(** THE START STAGE FEEDS THE REST OF THE PIPELINE (ChainFacts.v): the tours decoded (Decode.v) from ANY feasible flows of the
+    per-type networks built for the distributed slots (SlotDist.v) — one flow and one in-edge order per vehicle type, no unit
+    straight from a start depot into an end depot — are valid Paths over known nodes, typed, and within the formation and track
+    limits (tracks summed over all types); with a fleet that fits the overflow depot the whole pipeline returns, whatever the
+    two picks choose.  Between the listing and the answer the only oracles left are the external flow solver (a feasible flow
+    exists: circulation_feasible_distributed) and the two minimisers' picks. *)
+From RS Require Import ChainStmts ChainFacts.
+Theorem C06_decoded_tours_feed_the_pipeline : stmt_decoded_tours_feed_pipeline.
+Proof. exact decoded_tours_feed_pipeline. Qed.
+Print Assumptions C06_decoded_tours_feed_the_pipeline.
+Theorem C06_solve_returns_for_every_feasible_flow : stmt_solve_returns_given_flows.
+Proof. exact solve_returns_given_flows. Qed.
+Print Assumptions C06_solve_returns_for_every_feasible_flow.
